@@ -47,6 +47,14 @@ theorem C13_getitem (a : List Nat) (b : Nat) (hb0 : 0 < b) (hb : b ∣ 64) (ha :
     getitem (pack a b) b i = some a[i] :=
   Proofs.BitOps.getitem_pack a b hb0 hb ha i hi
 
+/-- the same with the addressing arithmetic generated from the CURRENT source (kernel K11, bridged to the
+reference kernel on every run): this is the function the driver executes -/
+theorem C13_getitem_generated (a : List Nat) (b : Nat) (hb0 : 0 < b) (hb : b ∣ 64) (ha : ∀ x ∈ a, x < 2 ^ b)
+    (i : Nat) (hi : i < a.length) :
+    getitemK (pack a b) b i = some a[i] := by
+  rw [Proofs.BitAddr.getitemK_eq _ b i (Nat.div_pos (Nat.le_of_dvd (by decide) hb) hb0)]
+  exact Proofs.BitOps.getitem_pack a b hb0 hb ha i hi
+
 example : getitem (pack [0xDEADBEEF, 0x12345678, 0xCAFEF00D] 32) 32 2 = some 0xCAFEF00D := by decide
 example : getitem (pack ((List.range 35).map (· % 4)) 2) 2 34 = some 2 := by decide
 
